@@ -745,16 +745,38 @@ def gen_C13(o, rng, tier, unchecked=False, eq="lawful"):
                         for c in tup:
                             o.op(f"m0 get_mut q:{c}#0 0")
                         o.end()
+    big_map_gdm(o, rng, name, eq)
+
+
+def big_map_gdm(o, rng, name, eq):
+    """a map with more than 256 entries: slot positions that do not fit a byte."""
+    picks = [[3, 260], [1, 257], [299, 0, 256], [255, 256], [298, 42, 299, 1]]
+    for _ in range(3):
+        picks.append(rng.sample(range(300), rng.randint(2, 4)))
+    for tup in picks:
+        o.case(m0=300, m1=0, eq=eq, tag="big")
+        for i in range(300):
+            o.op(f"m0 insert {o.k(i)} {o.v()}")
+        # a removal in the middle moves the last entry to slot 7
+        o.op("m0 remove q:7#0")
+        ks = ",".join(f"q:{c}#0" for c in tup)
+        o.op(f"m0 {name} 1 [{ks}]", test=True)
+        for c in tup:
+            o.op(f"m0 get_mut q:{c}#0 0")
+        o.op("m0 get q:299#0")
+        o.op("m0 get q:7#0")
+        o.op("m0 len")
+        o.end()
 
 
 def gen_C14(o, rng, tier):
     nu = 3
     u = list(range(nu))
-    caps = [(3, 3), (3, 4), (4, 3)]
+    caps = [(3, 3), (3, 4), (4, 3), (0, 3), (3, 0), (0, 0), (1, 6), (6, 1)]
     for (c0, c1) in caps:
-        for a in layouts(nu, u):
-            for b in layouts(nu, u):
-                if tier == "quick" and (c0, c1) != (3, 3) and rng.random() < 0.7:
+        for a in layouts(min(nu, c0), u):
+            for b in layouts(min(nu, c1), u):
+                if tier == "quick" and (c0, c1) != (3, 3) and min(c0, c1) > 0 and rng.random() < 0.7:
                     continue
                 for dv in ([None] if not b else [None, 0, len(b) - 1]):
                     o.case(m0=c0, m1=c1, s0=c0, s1=c1)
